@@ -660,6 +660,10 @@ def preprocess_observation(
             observation = apply_image_normalization(observation, observation_space)
 
         space_shape = observation_space.shape
+        if len(space_shape) == 0:
+            # Scalar Box: networks are built with one input feature (spaces.flatdim)
+            observation = observation.unsqueeze(-1)
+            space_shape = (1,)
 
     elif isinstance(observation_space, spaces.Discrete):
         # One hot encoding of discrete observation
